@@ -956,9 +956,15 @@ fn drop_allof_name_collisions(defs: &mut Map<String, Value>) -> u64 {
             Value::Object(o) => {
                 if let Some(Value::Array(members)) = o.get_mut("allOf") {
                     let mut seen: Vec<(String, String)> = vec![]; // (identifier, name)
+                    let mut shared: std::collections::BTreeMap<String, Value> = Default::default();
                     for m in members.iter_mut() {
                         let mine = names_of(m);
                         let clash: Vec<String> = mine.iter().filter(|k| seen.iter().any(|(id, name)| id == &heck_snake(k) && name != *k)).cloned().collect();
+                        if m.get("$ref").is_some() && !clash.is_empty() {
+                            // a referenced member cannot be edited here: it is replaced
+                            *m = json!({"type": "object"});
+                            *n += 1;
+                        }
                         if m.get("$ref").is_none() {
                             for k in &clash {
                                 if let Some(p) = m.get_mut("properties").and_then(|p| p.as_object_mut()) {
@@ -972,6 +978,28 @@ fn drop_allof_name_collisions(defs: &mut Map<String, Value>) -> u64 {
                         }
                         for k in names_of(m) {
                             seen.push((heck_snake(&k), k));
+                        }
+                        // a property two members declare with different structured schemas is merged
+                        // member by member in turn, where the same collisions can arise one level
+                        // down: the later declaration is dropped (same known finding)
+                        if m.get("$ref").is_none() {
+                            let structured = |v: &Value| v.get("$ref").is_some() || v.get("properties").is_some() || v.get("allOf").is_some() || v.get("oneOf").is_some() || v.get("anyOf").is_some();
+                            let mine: Vec<(String, Value)> = m.get("properties").and_then(|p| p.as_object()).map(|p| p.iter().map(|(k, v)| (k.clone(), v.clone())).collect()).unwrap_or_default();
+                            for (k, v) in mine {
+                                if let Some(prev) = shared.get(&k) {
+                                    if prev != &v && structured(prev) && structured(&v) {
+                                        if let Some(p) = m.get_mut("properties").and_then(|p| p.as_object_mut()) {
+                                            p.remove(&k);
+                                        }
+                                        if let Some(r) = m.get_mut("required").and_then(|r| r.as_array_mut()) {
+                                            r.retain(|x| x.as_str() != Some(k.as_str()));
+                                        }
+                                        *n += 1;
+                                        continue;
+                                    }
+                                }
+                                shared.insert(k, v);
+                            }
                         }
                     }
                 }
